@@ -13,15 +13,19 @@ EXPLANATION = (
     "SpanExt::union = (min start, max end - min start) on a grid of spans; (len) every LocatedError::span implementation "
     "returns a length that ends on a character boundary of the text at its location (evaluated on fragments that are "
     "empty, ASCII and multi-byte): a non-zero constant length cannot be valid both at the end of input and on a multi-byte "
-    "character; (partition) spans and expression are shifted by the same offset (C08.bytes).  That the parser's offsets are "
-    "character boundaries is assumed (pori).")
-RULES = "C17.source (PROV), C17.union (TABLE), C17.len (TABLE), C17.partition (= C08.bytes)"
+    "character; (partition) spans and expression are shifted by the same offset (C08.bytes); (tokens) on the text "
+    "catalogue of C01.parse (~10 700 accepted texts, with multi-byte characters, escapes, flags and nested groups; the parser "
+    "evaluated from its THIR with the nom / pori combinators modelled) every token's annotation is the byte span of its own "
+    "text in the expression - starting at the token or at the flags written before it, ending where the token ends, a tree "
+    "wildcard with the separators it absorbs - and the stored expression is the text that was parsed.  pori::span is "
+    "modelled as (location before, location after - location before).")
+RULES = "C17.source (PROV), C17.union (TABLE), C17.len (TABLE), C17.partition (= C08.bytes), C17.annotate (PROV), C17.tokens (TABLE on a text catalogue: annotations vs. byte spans of the reference reading)"
 
 
 def run(ctx):
     F = ctx.facts()
     R = ctx.report
-    R.assume("pori::span / Location::location report byte offsets on character boundaries of the expression")
+    R.assume("pori::span / Location::location report byte offsets of the expression, as modelled in sa/nommodel.py")
     R.undecided("saturating edge cases of span rewriting after partition; spans of parse errors produced inside nom")
     rule_union(F, R)
     rule_len(F, R)
@@ -29,6 +33,8 @@ def run(ctx):
     rule_annotate(F, R)
     from . import c08
     c08.rule_partition(F, R)   # C17.partition: spans and expression are shifted by the same offset
+    from . import parsecat
+    parsecat.report(F, R, "C17.tokens", ctx.tier, ("span", "expression"), 12000)
     if "all" in ctx.configs():
         rule_miette(ctx.facts("all"), R)
 
